@@ -1,0 +1,13 @@
+//go:build verif
+
+package k8s
+
+// Contracts for the verification framework in /verif (comment-only).
+
+// the networks selected by a pod annotation are objects: the daemon dereferences every element
+// (pkg/galaxy resolveNetworks) while serving a CNI request (C18: no request can crash the daemon)
+//@ func [C18,C12] ParsePodNetworkAnnotation
+//@   ensures [C18,C12:selected-networks-are-objects] result1 == nil ==> forall i int {result0[i]} :: 0 <= i && i < len(result0) ==> result0[i] != nil
+//@   modifies fresh NetworkSelectionElement.*, elemsof(*NetworkSelectionElement), fresh elemsof(byte), fresh elemsof(string), fresh elemsof(interface{})
+//@   loop 0 invariant forall i int {networks[i]} :: 0 <= i && i < idx ==> networks[i] != nil
+//@   loop 1 invariant forall i int {networks[i]} :: 0 <= i && i < len(networks) ==> networks[i] != nil
